@@ -25,6 +25,11 @@ CHECKS = {
     technique="TLA+ constant table and threshold rules (Curves.tla) enumerated by TLC into cases replayed through the real pipeline and the real binary's --curve option",
     text="Exhaustive over the finite space the property quantifies: 3 curves x (26 documented names + ~110 near-miss names), every constant size 0..300 plus constant-expression and parameter forms for Num2Bits/Bits2Num and for the LessThan range check, with the verdict computed by Curves.tla (documented table, 254-bit threshold, k <= bits-2 lemma checked by TLC on small primes); each case is rendered as a template and run through the in-process pipeline with that curve. All 1568 case variants of the curve names and 23 wrong names go through the library parser and (sample / all in thorough) the real binary.",
     note="The documented table with Circomlib's spelling is the authority; template rendering and counting of findings by id and label text is trusted."),
+ "C03": dict(
+    level="model_checking", design="§5 C03",
+    technique="TLA+ model of AnalysisRunner and of the writers (Runner.tla, Output.tla) checked by TLC over all configurations x orders x option sets; TLC-generated schedules replayed on the real runner (hook H4) against an independent production oracle; stdout/SARIF/exit of the real binary validated by TLC (RunnerTrace.tla)",
+    text="TLC proves report conservation for the model of the runner over every configuration of 2 (thorough: 3) definitions, every look-up relation and every analysis order, and the output contract for every option set. Every schedule TLC emits is executed on the real AnalysisRunner in exactly that order and compared, per definition and as multisets, with what an oracle built only from public stage functions says is produced. The real binary is run on every configuration and on the full (level x allow-subset x sarif x verbose) lattice of a set of projects; its stdout, SARIF file and exit status are accepted or rejected by RunnerTrace.tla.",
+    note="Production oracle = public into_cfg/into_ssa/get_analysis_passes with a harness-side context; stdout parser trusted; projects are small (<= 3 definitions in generated configurations plus the base corpus)."),
 }
 
 NOT_YET = "check not built yet (work in progress; see DESIGN.md §8 for the order)"
